@@ -58,6 +58,8 @@ def gen_case(rng, tier, wrap=False):
     if rng.random() < 0.3:
         c['shared_dir'] = True
     if rng.random() < 0.4:
+        c['handler_universe'] = rng.choice(['late_dynamic', 'none_dynamic', 'static_without', 'static_with'])
+    if rng.random() < 0.4:
         c['tz'] = rng.choice(['Asia/Tokyo', 'America/New_York', 'Europe/Paris', 'Australia/Sydney', 'America/Los_Angeles'])
     return c
 
@@ -150,6 +152,11 @@ class C06(Prop):
                 j.failures.append('%s: source bid %s but ask / handler bid, ask, bid-ask, mid are %s' % (w, bid, flat))
             if len(j.failures) > 5 or len(j.disagreements) > 5:
                 return j
+        if 'answers_univ' in impl:
+            for q, a0, a1 in zip(c['queries'], impl['answers'], impl['answers_univ']):
+                if a0 != a1:
+                    j.failures.append('query %s: a data handler built with universe %s answers %s, without a universe %s' % (q, c['handler_universe'], a1, a0))
+                    break
         if 'answers_shared_dir' in impl:
             for q, a0, a1 in zip(c['queries'], impl['answers'], impl['answers_shared_dir']):
                 if a0 != a1:
